@@ -100,6 +100,7 @@ typedef struct CO_TMR_T {
     struct CO_TMR_TIME_T   *Free;      /*!< Timer event free list            */
     struct CO_TMR_TIME_T   *Use;       /*!< Timer event used list            */
     struct CO_TMR_TIME_T   *Elapsed;   /*!< Timer event elapsed list         */
+    struct CO_TMR_ACTION_T *Run;       /*!< Actions waiting in COTmrProcess  */
     uint32_t                Freq;      /*!< Timer ticks per second           */
 
 } CO_TMR;
